@@ -151,22 +151,18 @@ def processFrame (cfg : CheckCfg) (s : CdpSt) : Except PanicSite (CdpSt × List 
     match s.barrel with
     | none => .error .invalidLayer
     | some barrel =>
-      match checkAlpideFrame cfg.alpide barrel f.lanes with
-      | .error p => .error p
-      | .ok res =>
-        let fatal := if res.newFatal.isEmpty then s.fatalLanes
-                     else some (s.fatalLanes.getD [] ++ res.newFatal)
-        let s := { s with fatalLanes := fatal }
-        match frameLanesValid barrel f.lanes fatal with
-        | .error p => .error p
-        | .ok valid =>
-          let m1 := if valid then [] else
-            [mkErrFrame f.start (if barrel == .inner then "E72" else "E73") s.rdh.feeId]
-          let m2 := [Msg.alpideStats res.stats]
-          let m3 := if res.laneErrorCount == 0 then [] else
-            [mkErrFrame f.start (if barrel == .inner then "E74" else "E75") s.rdh.feeId
-              (res.laneCodes.filter (· != "BC"))]
-          .ok (s, m1 ++ m2 ++ m3)
+      let res := checkAlpideFrame cfg.alpide barrel f.lanes
+      let fatal := if res.newFatal.isEmpty then s.fatalLanes
+                   else some (s.fatalLanes.getD [] ++ res.newFatal)
+      let s := { s with fatalLanes := fatal }
+      let valid := frameLanesValid barrel f.lanes fatal
+      let m1 := if valid then [] else
+        [mkErrFrame f.start (if barrel == .inner then "E72" else "E73") s.rdh.feeId]
+      let m2 := [Msg.alpideStats res.stats]
+      let m3 := if res.laneErrorCount == 0 then [] else
+        [mkErrFrame f.start (if barrel == .inner then "E74" else "E75") s.rdh.feeId
+          (res.laneCodes.filter (· != "BC"))]
+      .ok (s, m1 ++ m2 ++ m3)
 
 /-- `preprocess_tdt` -/
 def preTdt (cfg : CheckCfg) (s : CdpSt) (w : Bytes) : Except PanicSite (CdpSt × List Msg) :=
@@ -295,20 +291,22 @@ def checkWords (cfg : CheckCfg) : CdpSt → List Bytes → Except PanicSite (Cdp
       | .error p => .error p
       | .ok (s2, m2) => .ok (s2, m1 ++ m2)
 
+/-- `set_current_rdh`: a new tracker for the packet; in stave mode the barrel is determined from
+    the FEE ID of the first packet the validator sees (`Stave::from_feeid` panics for layer 7) -/
+def setCurrentRdh (cfg : CheckCfg) (s : CdpSt) (off : Nat) (r : Rdh) : Except PanicSite CdpSt :=
+  let s := { s with payloadPos := off + 64, wordCount := 0,
+                    slot := if r.dataFormat == 0 then 16 else 10, startOfData := true, rdh := r }
+  if cfg.stave && s.barrel.isNone then
+    match barrelOfFee r.feeId with
+    | none => .error .invalidLayer
+    | some b => .ok { s with barrel := some b }
+  else .ok s
+
 /-- `do_payload_checks`: set the current RDH, cut, check every word (or report the padding
     error and reset the state machine) -/
 def payloadChecks (cfg : CheckCfg) (s : CdpSt) (off : Nat) (r : Rdh) (payload : Bytes) :
     Except PanicSite (CdpSt × List Msg) :=
-  -- set_current_rdh
-  let s := { s with payloadPos := off + 64, wordCount := 0,
-                    slot := if r.dataFormat == 0 then 16 else 10, startOfData := true, rdh := r }
-  let sOrPanic : Except PanicSite CdpSt :=
-    if cfg.stave && s.barrel.isNone then
-      match barrelOfFee r.feeId with
-      | none => .error .invalidLayer
-      | some b => .ok { s with barrel := some b }
-    else .ok s
-  match sOrPanic with
+  match setCurrentRdh cfg s off r with
   | .error p => .error p
   | .ok s =>
     match cutPayload payload with
